@@ -1198,6 +1198,8 @@ class FormatField(Construct):
         if format in "fd":
             assert not bitwise
             return "f%s%s" % (self.length, "le" if swapped else "be", )
+        # half precision floats and booleans have no Kaitai primitive type
+        raise NotImplementedError
 
 
 class BytesInteger(Construct):
